@@ -267,7 +267,7 @@ def _series_instances():
 @contract("C14", targets=[PH + "hpf", PH + "_data_hpf", PH + "_prepare_constraints", PH + "_remove_first_date_change", PH + "_get_default_smooth",
                           "irispie.dates:get_encompassing_span", "irispie.series.main:Series.iter_own_data_variants_from_until"],
           instances=_series_instances(),
-          thorough=[(D.QuarterlyPeriod, (False, False, True, False), "none", (), (), True)],      # log at series level: slow queries (13 s), thorough tier only; log with constraints: array-level contract
+          # log=True at series level is not instantiated: its queries are unstable (13 s alone, timeout under load); log is covered by the array-level contract
           opts={"max_paths": 600})
 def hpf_on_series(K, cls, pattern, span_kind, lev, chg, log):
     """hpf(x, span=, smooth=, level=, change=, log=) on series: the filter runs on the span that encompasses the data,
